@@ -21,3 +21,16 @@ package binutils
 //@     invariant a.m[low].address <= addr
 //@     invariant high < len(a.m) ==> addr < a.m[high].address
 //@     decreases high - low
+
+// ---- C13 (strengthened after seeded changes): the mapping data reaches the ELF helpers unchanged ----
+//@ func elfMapping.findProgramHeader nosafety
+//@   callsite ProgramHeadersForMapping mapping: $arg1 == m.offset && $arg2 == m.limit - m.start
+//@   callsite HeaderForFileOffset fileoffset: $arg1 == addr - m.start + m.offset
+//@ func file.computeBase nosafety
+//@   callsite elfMapping.findProgramHeader sample: $arg0 == f.m && $arg2 == addr
+//@   callsite GetBase mapping: $arg2 == f.m.kernelOffset && $arg3 == f.m.start && $arg4 == f.m.limit && $arg5 == f.m.offset
+//@ func fileAddr2Line.SourceLine nosafety
+//@   callsite llvmSymbolizer.addrInfo based: f.baseErr == nil && $arg1 == addr
+//@   callsite addr2Liner.addrInfo based: f.baseErr == nil && $arg1 == addr
+//@ func addr2Liner.addrInfo nosafety
+//@   callsite addr2LinerNM.addrInfo runtime_addr: $arg1 == addr
